@@ -4,7 +4,7 @@ from .common import generic_run, FinalDbMonitor, launched_instances
 PID = 'C11'
 ENGINE = 'E1'
 LEVEL = 'exploration'
-RULE = ('One case = generated workflow with required/optional standard and custom outputs + an outcome plan covering output subsets (missing required outputs, failures with and without optional success, partial outputs of failed tries). Each removal and each retained finished task is compared with the completion rule written from the property text. Distinct = distinct (program, outcome plan digest); non-trivial = at least one finished task was retained incomplete and one removed complete.')
+RULE = ('One case = generated workflow with required/optional standard and custom outputs + an outcome plan covering output subsets (user completion expressions `succeeded and (x or y)` / `succeeded or (failed and x)` on half of the tasks whose graph optionality allows them, missing required outputs, failures with and without optional success, partial outputs of failed tries). Each removal and each retained finished task is compared with the completion rule written from the property text. Distinct = distinct (program, outcome plan digest); non-trivial = at least one finished task was retained incomplete and one removed complete.')
 ASSUMPTIONS = [
     'jobs, polls, submissions, message transport and the clock are simulated',
     'reference model / invariants cover the generated workflow sub-language',
@@ -13,7 +13,8 @@ TIERS = {
     'quick': {'n': 1000, 'budget_s': 420, 'chunk': 10},
     'thorough': {'n': 20000, 'budget_s': 3000, 'chunk': 25},
 }
-EXPECTED_PROBES = ['removed_complete', 'incomplete_task_retained']
+EXPECTED_PROBES = ['removed_complete', 'incomplete_task_retained',
+                   'user_completion_expression']
 
 
 def make_params(seed, tier):
@@ -22,11 +23,44 @@ def make_params(seed, tier):
 KNOBS = {'p_custom': 0.7, 'p_optional': 0.4, 'p_fail_trigger': 0.25}
 
 
+_LAST = {'completion': False}
+
+
+def prog_hook(prog, rng):
+    """Give some tasks a user completion expression (of a form that is
+    consistent with the optionality the graph declares)."""
+    from ..gen import atoms
+    ref = {}
+    _LAST['completion'] = False
+    for s in prog.sections:
+        for e, _tg in s.lines:
+            for a in atoms(e):
+                ref.setdefault(a.task, set()).add(a.output)
+    for name, t in prog.tasks.items():
+        if rng.random() > 0.5:
+            continue
+        opt_c = [c for c in t.customs if c in ref.get(name, ()) and t.opt.get(c)]
+        succ_opt = bool(t.opt.get('succeeded')) or 'failed' in ref.get(name, ())
+        if any(o in ref.get(name, ()) for o in ('submit-failed', 'expired')):
+            continue
+        if not succ_opt and len(opt_c) >= 2:
+            a, b = opt_c[:2]
+            t.completion = f'succeeded and ({a} or {b})'
+            _LAST['completion'] = True
+        elif succ_opt and opt_c:
+            t.completion = f'succeeded or (failed and {opt_c[0]})'
+            _LAST['completion'] = True
+
+
 def run(params):
     r = generic_run(PID, params, knobs=KNOBS, policy='any',
+                    prog_hook=prog_hook,
                     plan_kw={'p_fail': 0.4, 'p_optout': 0.5})
     st = r.get('stats') or {}
     pr = st.get('probes', {})
+    if _LAST['completion']:
+        pr['user_completion_expression'] = pr.get('user_completion_expression', 0) + 1
+        st['probes'] = pr
     if not (pr.get('removed_complete') and pr.get('incomplete_task_retained')):
         st['nontrivial'] = []
     return r
